@@ -5,6 +5,7 @@ mod model;
 mod props;
 mod rng;
 mod runner;
+mod shrinksrc;
 mod world;
 
 use framework::{Prop, Tier};
@@ -90,6 +91,72 @@ fn real_main(args: &[String], props: &[&dyn Prop]) -> i32 {
             }
             for (k, v) in hist {
                 println!("{v:6}  {k}");
+            }
+            0
+        }
+        "dbg" => {
+            // vsim dbg <file.masm>: execute, print the trace summary, run the AIR monitor, build aux
+            let src = std::fs::read_to_string(&args[1]).unwrap_or_else(|_| args[1].clone());
+            let mut chal: Vec<u64> = (0..32).map(|i| 0x9E37_79B9_7F4A_7C15u64.wrapping_mul(i + 11) % rng::P).collect();
+            let spec = if src.trim_start().starts_with('{') {
+                let v: serde_json::Value = serde_json::from_str(&src).unwrap();
+                let v = if v.get("scenario").is_some() { v["scenario"].clone() } else { v };
+                if v.get("challenges").is_some() {
+                    chal = world::vm::u64s(&v["challenges"]);
+                }
+                world::vm::ProgSpec::from_json(if v.get("prog").is_some() { &v["prog"] } else { &v })
+            } else {
+                world::vm::ProgSpec { source: src, stdlib: true, kernel: args.get(2).cloned(), ..Default::default() }
+            };
+            let prog = match spec.assemble(false) {
+                Ok(p) => p,
+                Err(e) => {
+                    println!("assemble: {e}");
+                    return 1;
+                }
+            };
+            let mut host = spec.host(vec![], Default::default());
+            match world::vm::run(&prog, spec.stack(), &mut host, world::vm::options(None, 64, false)) {
+                world::vm::Outcome::Ok(mut t) => {
+                    use winter_prover::Trace;
+                    let s = *t.trace_len_summary();
+                    println!("ok: cycles={} range={} chiplets={} len={} outputs={:?}", s.main_trace_len(), s.range_trace_len(), s.chiplets_trace_len().trace_len(), t.length(), t.stack_outputs().stack().iter().take(16).collect::<Vec<_>>());
+                    let mon = model::air_monitor::Monitor::new(&t, spec.stack());
+                    let main = t.main_segment().clone();
+                    println!("main transitions: {:?}", mon.check_main_transitions(&main));
+                    println!("main assertions: {:?}", mon.check_main_assertions(&main));
+                    let ch = model::air_monitor::challenges_from(&chal);
+                    match framework::catch(|| t.build_aux_segment(&[], &ch)) {
+                        Ok(Some(aux)) => {
+                            println!("aux: {:?}", mon.check_aux(&main, &aux, &ch));
+                            let l = t.length();
+                            if let Ok(rows) = std::env::var("DBG_ROWS") {
+                                let mut it = rows.split('-');
+                                let a: usize = it.next().unwrap().parse().unwrap();
+                                let b: usize = it.next().unwrap().parse().unwrap();
+                                for r in a..=b {
+                                    let dec: Vec<u64> = (0..24).map(|c| model::tracecols::g(&main, 8 + c, r)).collect();
+                                    println!("    row {} op {} decoder {:?}", r, model::opnames::op_name(model::air_monitor::opcode_at(&main, r)), dec);
+                                }
+                            }
+                            if let Ok(col) = std::env::var("DBG_COL") {
+                                let c: usize = col.parse().unwrap_or(0);
+                                for r in 0..l - 2 {
+                                    if aux.get(c, r) != aux.get(c, r + 1) {
+                                        println!("    col {} changes at row {} (op {}) -> {:?}", c, r, model::opnames::op_name(model::air_monitor::opcode_at(&main, r)), aux.get(c, r + 1));
+                                    }
+                                }
+                            }
+                            for c in 0..aux.num_cols() {
+                                println!("  aux col {} first={:?} last(len-2)={:?}", c, aux.get(c, 0), aux.get(c, l - 2));
+                            }
+                        }
+                        Ok(None) => println!("aux: none"),
+                        Err((l, m)) => println!("aux build PANIC {l}: {m}"),
+                    }
+                }
+                world::vm::Outcome::Err(e) => println!("exec error: {e}"),
+                world::vm::Outcome::Panic(l, m) => println!("exec PANIC {l}: {m}"),
             }
             0
         }
